@@ -28,6 +28,9 @@ def rescale_box(
     min = jnp.broadcast_to(min, box.shape)
     max = jnp.broadcast_to(max, box.shape)
 
+    # Unbounded components cannot be mapped affinely onto a finite target (and vice versa)
+    assert jnp.all(jnp.where(jnp.isinf(min) | jnp.isinf(box.low), min == box.low, True))
+    assert jnp.all(jnp.where(jnp.isinf(max) | jnp.isinf(box.high), max == box.high, True))
     assert jnp.all(min <= max)
     assert jnp.all(box.low <= box.high)
 
